@@ -58,6 +58,9 @@ type FuncContract struct {
 	Sweep     bool     // synthesised by a zero-annotation no-panic sweep
 	UnboxNonNil bool   // assumption: pointers extracted from interface values are non-nil
 	AssumePre   bool   // preconditions of callees are assumed, not checked, in this unit (reported)
+	IterFn    string   // "iterates f count E": calls parameter f once per index 0..E-1, in order
+	IterCount string
+	Yields    []Clause // facts about the arguments of the iter-th call (closure parameter names, iter)
 	ModExcept []string // "modifies everything except T1, T2": type texts
 	Preserves []string // types whose heaps uncontracted calls in this function never modify (assumption)
 	used     bool
@@ -113,7 +116,7 @@ var clauseKeywords = map[string]bool{"func": true, "iface": true, "requires": tr
 	"nopanic": true, "inline": true, "pure": true, "panics": true, "loop": true, "prop": true, "pred": true,
 	"uf": true, "at": true, "assumed": true, "trusted": true, "expect": true, "math": true, "fresh": true,
 	"axiom": true, "ghost": true, "havoc": true, "alias": true, "end": true,
-	"ghostfield": true, "define": true, "view": true, "ghostscalar": true, "deterministic": true, "globalinv": true, "preserves": true, "sweep": true, "unboxnonnil": true, "assumepre": true}
+	"ghostfield": true, "define": true, "view": true, "ghostscalar": true, "deterministic": true, "globalinv": true, "preserves": true, "sweep": true, "unboxnonnil": true, "assumepre": true, "iterates": true, "yields": true}
 
 var labelRe = regexp.MustCompile(`^(requires|ensures|invariant)\[([A-Za-z0-9_.:-]+)\]`)
 
@@ -282,6 +285,16 @@ func (db *ContractDB) parseContractFile(path, pkgPath string, prefix string, ass
 				cur.UnboxNonNil = true
 			case "assumepre":
 				cur.AssumePre = true
+			case "iterates":
+				// iterates f count E
+				fs := strings.SplitN(rest, " ", 3)
+				if len(fs) != 3 || fs[1] != "count" {
+					return fmt.Errorf("%s: iterates <param> count <expr>", src)
+				}
+				cur.IterFn, cur.IterCount = fs[0], strings.TrimSpace(fs[2])
+				cur.HasMod = true
+			case "yields":
+				cur.Yields = append(cur.Yields, Clause{rest, label, src})
 			case "nopanic":
 				cur.NoPanic = true
 			case "inline":
